@@ -311,12 +311,15 @@ class GPyRegression:
             self._gp = self._make_gpy_instance(
                 x, y, kernel=kernel, noise_var=noise_var, mean_function=mean_function)
 
+        self._rbf_is_cached = False
+
         if optimize:
             self.optimize()
 
     def optimize(self):
         """Optimize GP hyperparameters."""
         logger.debug("Optimizing GP hyperparameters")
+        self._rbf_is_cached = False
         try:
             self._gp.optimize(self.optimizer, max_iters=self.max_opt_iters)
         except np.linalg.linalg.LinAlgError:
